@@ -70,6 +70,12 @@ Sensitivity (scratch copies, quick tier, seed 1):
     value.  New program shapes GZIP200 / GZIPSTREAM (Application(compress_response=True), Accept-Encoding: gzip,
     1500-byte body, body compared after gunzip, Vary modelled as "<program's value>, Accept-Encoding"); names in the
     spellings Vary / vary / VARY / vArY (also X-A / x-a, Cache-Control / cache-control); 234 deterministic programs.
+  * web.py the forbidden-character class for the deprecated Expires= keyword of set_cookie lost the semicolon
+    (Expires="Thu, 01 Jan 2032 00:00:00 GMT; Domain=evil.example" accepted) -> caught at seeds 1,2,3
+    (set_cookie_attribute_injected in the character sweep).  Missed before: only Comment= / Version= / Domain= were api
+    paths and their attribute lists were not compared.  Now every attribute of the cookie library is an api path through
+    its deprecated keyword (Expires, Path, Max-Age, Secure, HttpOnly, SameSite added) and for all of them the Set-Cookie
+    line must carry exactly {that attribute, Path=/} with exactly the payload as its value.
 Not implemented from DESIGN: `expires` as an injection position (the documented types float/tuple/datetime
 carry no text); header values as int/datetime (no payload can be carried).
 """
@@ -86,7 +92,7 @@ from vlib import webutil_c2 as wu
 PROPERTY = "C07"
 READY = True
 RULE = (
-    "Hypothesis: (api path of 27, response shape of 4, str/bytes, payload = benign + <=3 chars of a "
+    "Hypothesis: (api path of 33, response shape of 4, str/bytes, payload = benign + <=3 chars of a "
     "control/separator/non-ASCII alphabet + injected-line tail | free text over that alphabet); plus an "
     "enumerated sweep of single characters (quick: 60 critical code points; thorough: every code point "
     "0..0x2FF and samples above) at start/middle/end of the payload for every api path; non-trivial = "
@@ -111,10 +117,16 @@ SHAPES = ["GET200", "HEAD200", "GET204", "STREAM200"]
 COOKIE_APIS = [
     "cookie_name", "cookie_value", "cookie_domain", "cookie_path", "cookie_samesite",
     "cookie_kw_comment", "cookie_kw_version", "cookie_kw_domain",
+    # every other attribute the cookie library knows, through its deprecated mixed-case keyword
+    "cookie_kw_expires", "cookie_kw_path", "cookie_kw_max-age", "cookie_kw_secure", "cookie_kw_httponly",
+    "cookie_kw_samesite",
     "signed_name", "signed_value", "signed_domain",
     "clear_name", "clear_domain", "clear_path",
 ]
-KW_APIS = {"cookie_kw_comment", "cookie_kw_version", "cookie_kw_domain"}
+KW_SPELLING = {"comment": "Comment", "version": "Version", "domain": "Domain", "expires": "Expires", "path": "Path",
+               "max-age": "Max-Age", "secure": "Secure", "httponly": "HttpOnly", "samesite": "SameSite"}
+KW_APIS = {"cookie_kw_" + k for k in KW_SPELLING}
+KW_FLAGS = {"secure", "httponly"}
 HEADER_APIS = ["set_header_value", "add_header_value", "set_header_name", "add_header_name"]
 LOW_APIS = ["low_value", "low_name", "low_reason"]
 APIS = HEADER_APIS + ["set_status_reason", "httperror_reason", "redirect_url"] + COOKIE_APIS + LOW_APIS
@@ -173,6 +185,8 @@ def apply_api(h, api, p, shape):
         h.set_cookie("a", "v", path=p)
     elif api == "cookie_samesite":
         h.set_cookie("a", "v", samesite=p)
+    elif api in KW_APIS and api not in ("cookie_kw_comment", "cookie_kw_version", "cookie_kw_domain"):
+        _quiet(h.set_cookie, "a", "v", **{KW_SPELLING[api[len("cookie_kw_"):]]: p})
     elif api == "cookie_kw_comment":
         _quiet(h.set_cookie, "a", "v", Comment=p)
     elif api == "cookie_kw_version":
@@ -602,6 +616,22 @@ def cookie_line_problem(api, text, gn, gv, labels):
     if api == "cookie_kw_comment":
         if [wu.cookie_unquote(v) for v in amap.get("comment", [])] != ([text] if text else []):
             return "C07.set_cookie_attribute"
+    if api in KW_APIS:
+        # exactly the attributes asked for: the one given through the deprecated keyword (absent when empty) and
+        # the default Path=/ - a ';' in the value must never add attributes of its own
+        key = api[len("cookie_kw_"):]
+        expected = {"path"} | ({key} if text else set())
+        if key == "path" and not text:
+            expected = set()
+        if set(amap) != expected or any(len(v) != 1 for v in amap.values()):
+            return "C07.set_cookie_attribute_injected"
+        if text and key != "comment":
+            got = amap[key][0]
+            if key in KW_FLAGS:
+                if got is not None:
+                    return "C07.set_cookie_attribute"
+            elif got is None or got != text.strip(" "):
+                return "C07.set_cookie_attribute"
     return None
 
 
